@@ -24,6 +24,9 @@ static ssize_t lst_write(int fd, const void* buf, size_t n)
     if (++g_writes_this_dgram > 16384) {           /* a 16-bit length walked in steps of >= 4 bytes cannot emit more */
         const char* m = "VP-LOOP: more than 16384 CAN frames for one datagram\n";
         if (write(2, m, strlen(m))) {}
+#ifdef LST_FUZZ
+        abort();
+#endif
         _exit(EX_LOOP);
     }
     memset(&g_last, 0, sizeof g_last);
@@ -141,4 +144,16 @@ static int lst_child(int mode, const seq_t* s)
     return EX_OK;
 }
 
+#ifndef LST_FUZZ
 int main(void) { return lst_driver_main(); }
+#else
+static void lst_fuzz_one(int mode, const uint8_t* d, size_t n)
+{
+    static int pair[2] = { -1, -1 };
+    if (pair[0] < 0 && make_pair(pair) < 0) abort();
+    use_udp = mode >= 2; can_variant = (mode & 1) ? AVTP_CAN_FD : AVTP_CAN_CLASSIC;
+    if (send(pair[0], d, n, 0) < 0) abort();
+    g_writes_this_dgram = 0;
+    new_packet(pair[1], 99);
+}
+#endif
